@@ -1,110 +1,183 @@
-// Contracts for Settings::or (src/settings.rs), property C36.  `Settings::merge` builds the effective
-// settings as from_options(flags).or(from_env(env)).or(config_file).or_defaults(): precedence is
-// exactly the contract of `or` applied left to right.
+// Contracts for Settings::or and Settings::from_options (src/settings.rs), property C36.
+// `Settings::merge` builds the effective settings as
+//   from_options(flags).or(from_env(env)).or(config_file).or_defaults()
+// so precedence is exactly the contract of `or` applied left to right.
+//
+// Harness discipline (measured): comparing PathBuf values goes through Path::components() and does
+// not terminate under CBMC, and cloning a whole Settings is expensive; values are therefore MARKERS
+// whose identity is their length ("a" from the first source, "bb" from the second, "ccc" from the
+// third), fields are checked in groups of one kind, and nothing is cloned.
 #![allow(unused_imports, dead_code)]
 use super::*;
 #[cfg(not(kani))]
 use crate::verif_contracts::kani;
 
-fn path(tag: u8) -> Option<PathBuf> {
-  if kani::any() {
-    let mut p = PathBuf::new();
-    p.push(if tag == 0 { "a" } else if tag == 1 { "b" } else { "c" });
-    Some(p)
-  } else {
-    None
+const MARK: [&str; 4] = ["", "a", "bb", "ccc"];
+
+fn mk_path(tag: usize) -> PathBuf {
+  PathBuf::from(String::from(MARK[tag])) // From<String>: no path parsing (PathBuf::push parses components)
+}
+fn key_path(p: &PathBuf) -> usize {
+  p.as_os_str().len()
+}
+fn mk_text(tag: usize) -> String {
+  String::from(MARK[tag])
+}
+fn key_text(s: &String) -> usize {
+  s.len()
+}
+fn mk_chain(tag: usize) -> Chain {
+  match tag {
+    1 => Chain::Signet,
+    2 => Chain::Regtest,
+    _ => Chain::Testnet4,
+  }
+}
+fn key_chain(c: &Chain) -> usize {
+  match c {
+    Chain::Signet => 1,
+    Chain::Regtest => 2,
+    Chain::Testnet4 => 3,
+    _ => 0,
   }
 }
 
-fn text(tag: u8) -> Option<String> {
-  if kani::any() { Some(String::from(if tag == 0 { "a" } else if tag == 1 { "b" } else { "c" })) } else { None }
+/// who wins between two sources that may or may not set the field: 1 = first, 2 = second, None
+fn winner(pa: bool, pb: bool) -> Option<usize> {
+  if pa { Some(1) } else if pb { Some(2) } else { None }
 }
 
-fn chain(tag: u8) -> Option<Chain> {
-  if kani::any() { Some(if tag == 0 { Chain::Signet } else if tag == 1 { Chain::Regtest } else { Chain::Testnet4 }) } else { None }
+macro_rules! or_group {
+  ($a:ident, $b:ident, $mk:expr; $($f:ident => $pa:ident $pb:ident),*) => {
+    $( let $pa: bool = kani::any(); let $pb: bool = kani::any();
+       if $pa { $a.$f = Some($mk(1)); }
+       if $pb { $b.$f = Some($mk(2)); } )*
+  };
 }
 
-fn num<T: From<u8>>(tag: u8) -> Option<T> {
-  if kani::any() { Some(T::from(tag + 1)) } else { None }
+macro_rules! or_check {
+  ($r:ident, $key:expr; $($f:ident => $pa:ident $pb:ident),*) => {
+    $( assert!($r.$f.as_ref().map($key) == winner($pa, $pb), concat!("C36.or.", stringify!($f), "_takes_first_source_that_sets_it")); )*
+  };
 }
 
-fn size(tag: u8) -> Option<usize> {
-  if kani::any() { Some(tag as usize + 1) } else { None }
-}
-
-/// a source whose every optional setting is independently present or absent; present values carry
-/// the source's tag so that the winner can be told apart
-fn source(tag: u8, hidden: Option<InscriptionId>) -> Settings {
-  Settings {
-    bitcoin_data_dir: path(tag),
-    bitcoin_rpc_limit: num(tag),
-    bitcoin_rpc_password: text(tag),
-    bitcoin_rpc_url: text(tag),
-    bitcoin_rpc_username: text(tag),
-    chain: chain(tag),
-    commit_interval: size(tag),
-    config: path(tag),
-    config_dir: path(tag),
-    cookie_file: path(tag),
-    data_dir: path(tag),
-    height_limit: num(tag),
-    hidden: match hidden {
-      Some(id) => {
-        let mut h = HashSet::new();
-        h.insert(id);
-        Some(h)
-      }
-      None => None,
-    },
-    http_port: num(tag),
-    index: path(tag),
-    index_addresses: kani::any(),
-    index_cache_size: size(tag),
-    index_runes: kani::any(),
-    index_sats: kani::any(),
-    index_transactions: kani::any(),
-    integration_test: kani::any(),
-    max_savepoints: size(tag),
-    no_index_inscriptions: kani::any(),
-    savepoint_interval: size(tag),
-    server_password: text(tag),
-    server_url: text(tag),
-    server_username: text(tag),
-  }
-}
-
-macro_rules! first_wins {
-  ($r:expr, $a:expr, $b:expr, $($f:ident),*) => {$(
-    assert!($r.$f == if $a.$f.is_some() { $a.$f.clone() } else { $b.$f.clone() }, concat!("C36.or.", stringify!($f), "_takes_first_source_that_sets_it"));
-  )*};
-}
-
-macro_rules! any_sets {
-  ($r:expr, $a:expr, $b:expr, $($f:ident),*) => {$(
-    assert!($r.$f == ($a.$f || $b.$f), concat!("C36.or.", stringify!($f), "_is_on_if_any_source_sets_it"));
-  )*};
-}
-
-/// a.or(b): every optional setting is a's when a sets it, otherwise b's; every boolean switch is on
-/// if either sets it; the hidden list is the union.
+/// a.or(b), path-valued settings: each is a's when a sets it, otherwise b's
 //# props: C36
-//# kind: complete (every presence pattern of the 21 optional settings and 6 switches on both sides, distinct marker values; hidden lists of 0 or 1 element per side)
+//# kind: complete (every presence pattern of the 7 path settings on both sides)
 //# fns: settings::Settings::or
-//# assume: HashSet behaves as a finite set (shim contracts/ord/shim/env.rs); PathBuf / String values are markers "a" / "b"
+//# assume: HashSet behaves as a finite set (shim contracts/ord/shim/env.rs); values are markers
 //# timeout: 900
 #[cfg_attr(kani, kani::proof)]
-#[cfg_attr(kani, kani::unwind(6))]
-pub fn c36_or_first_source_wins() {
+#[cfg_attr(kani, kani::unwind(12))]
+pub fn c36_or_paths() {
+  let mut a = Settings::default();
+  let mut b = Settings::default();
+  or_group!(a, b, mk_path; bitcoin_data_dir => a0 b0, config => a1 b1, config_dir => a2 b2, cookie_file => a3 b3, data_dir => a4 b4, index => a5 b5);
+  let r = a.or(b);
+  or_check!(r, key_path; bitcoin_data_dir => a0 b0, config => a1 b1, config_dir => a2 b2, cookie_file => a3 b3, data_dir => a4 b4, index => a5 b5);
+  assert!(r.chain.is_none() && r.http_port.is_none() && r.server_url.is_none() && !r.index_sats, "C36.or.unset_settings_stay_unset");
+  std::mem::forget(r);
+}
+
+/// a.or(b), string-valued settings
+//# props: C36
+//# kind: complete (every presence pattern of the 6 string settings on both sides)
+//# fns: settings::Settings::or
+//# assume: HashSet behaves as a finite set (shim); values are markers
+//# timeout: 900
+#[cfg_attr(kani, kani::proof)]
+#[cfg_attr(kani, kani::unwind(12))]
+pub fn c36_or_strings() {
+  let mut a = Settings::default();
+  let mut b = Settings::default();
+  or_group!(a, b, mk_text; bitcoin_rpc_password => a0 b0, bitcoin_rpc_url => a1 b1, bitcoin_rpc_username => a2 b2, server_password => a3 b3, server_url => a4 b4, server_username => a5 b5);
+  let r = a.or(b);
+  or_check!(r, key_text; bitcoin_rpc_password => a0 b0, bitcoin_rpc_url => a1 b1, bitcoin_rpc_username => a2 b2, server_password => a3 b3, server_url => a4 b4, server_username => a5 b5);
+  std::mem::forget(r);
+}
+
+/// a.or(b), numeric settings and the chain
+//# props: C36
+//# kind: complete (every presence pattern of the 7 numeric settings and the chain on both sides)
+//# fns: settings::Settings::or
+//# assume: HashSet behaves as a finite set (shim)
+//# timeout: 900
+#[cfg_attr(kani, kani::proof)]
+#[cfg_attr(kani, kani::unwind(12))]
+pub fn c36_or_numbers_and_chain() {
+  let mut a = Settings::default();
+  let mut b = Settings::default();
+  or_group!(a, b, |t: usize| t as u32; bitcoin_rpc_limit => a0 b0, height_limit => a1 b1);
+  or_group!(a, b, |t: usize| t as u16; http_port => a2 b2);
+  or_group!(a, b, |t: usize| t; commit_interval => a3 b3, index_cache_size => a4 b4, max_savepoints => a5 b5, savepoint_interval => a6 b6);
+  or_group!(a, b, mk_chain; chain => a7 b7);
+  let r = a.or(b);
+  or_check!(r, |x: &u32| *x as usize; bitcoin_rpc_limit => a0 b0, height_limit => a1 b1);
+  or_check!(r, |x: &u16| *x as usize; http_port => a2 b2);
+  or_check!(r, |x: &usize| *x; commit_interval => a3 b3, index_cache_size => a4 b4, max_savepoints => a5 b5, savepoint_interval => a6 b6);
+  or_check!(r, key_chain; chain => a7 b7);
+  std::mem::forget(r);
+}
+
+/// a.or(b), boolean switches: on if either source sets them
+//# props: C36
+//# kind: complete (every value of the 6 switches on both sides)
+//# fns: settings::Settings::or
+//# assume: HashSet behaves as a finite set (shim)
+//# timeout: 900
+#[cfg_attr(kani, kani::proof)]
+#[cfg_attr(kani, kani::unwind(12))]
+pub fn c36_or_switches() {
+  let mut a = Settings::default();
+  let mut b = Settings::default();
+  let sa: [bool; 6] = kani::any();
+  let sb: [bool; 6] = kani::any();
+  a.index_addresses = sa[0];
+  a.index_runes = sa[1];
+  a.index_sats = sa[2];
+  a.index_transactions = sa[3];
+  a.integration_test = sa[4];
+  a.no_index_inscriptions = sa[5];
+  b.index_addresses = sb[0];
+  b.index_runes = sb[1];
+  b.index_sats = sb[2];
+  b.index_transactions = sb[3];
+  b.integration_test = sb[4];
+  b.no_index_inscriptions = sb[5];
+  let r = a.or(b);
+  assert!(r.index_addresses == (sa[0] || sb[0]), "C36.or.index_addresses_is_on_if_any_source_sets_it");
+  assert!(r.index_runes == (sa[1] || sb[1]), "C36.or.index_runes_is_on_if_any_source_sets_it");
+  assert!(r.index_sats == (sa[2] || sb[2]), "C36.or.index_sats_is_on_if_any_source_sets_it");
+  assert!(r.index_transactions == (sa[3] || sb[3]), "C36.or.index_transactions_is_on_if_any_source_sets_it");
+  assert!(r.integration_test == (sa[4] || sb[4]), "C36.or.integration_test_is_on_if_any_source_sets_it");
+  assert!(r.no_index_inscriptions == (sa[5] || sb[5]), "C36.or.no_index_inscriptions_is_on_if_any_source_sets_it");
+  std::mem::forget(r);
+}
+
+/// a.or(b), the hidden-inscription list: always present afterwards and exactly the union
+//# props: C36
+//# kind: bounded(hidden lists of 0 or 1 element per side; the second element's index symbolic)
+//# fns: settings::Settings::or
+//# assume: HashSet behaves as a finite set (shim)
+//# timeout: 900
+#[cfg_attr(kani, kani::proof)]
+#[cfg_attr(kani, kani::unwind(12))]
+pub fn c36_or_hidden_union() {
+  let mut a = Settings::default();
+  let mut b = Settings::default();
   let ha: Option<InscriptionId> = if kani::any() { Some(InscriptionId { txid: Txid::all_zeros(), index: 1 }) } else { None };
   let hb: Option<InscriptionId> = if kani::any() { Some(InscriptionId { txid: Txid::all_zeros(), index: kani::any() }) } else { None };
-  let a = source(0, ha);
-  let b = source(1, hb);
-  let (a0, b0) = (a.clone(), b.clone());
+  if let Some(x) = ha {
+    let mut h = HashSet::new();
+    h.insert(x);
+    a.hidden = Some(h);
+  }
+  if let Some(y) = hb {
+    let mut h = HashSet::new();
+    h.insert(y);
+    b.hidden = Some(h);
+  }
   let r = a.or(b);
-  first_wins!(r, a0, b0, bitcoin_data_dir, bitcoin_rpc_limit, bitcoin_rpc_password, bitcoin_rpc_url, bitcoin_rpc_username, chain,
-    commit_interval, config, config_dir, cookie_file, data_dir, height_limit, http_port, index, index_cache_size, max_savepoints,
-    savepoint_interval, server_password, server_url, server_username);
-  any_sets!(r, a0, b0, index_addresses, index_runes, index_sats, index_transactions, integration_test, no_index_inscriptions);
   let h = r.hidden.as_ref();
   assert!(h.is_some(), "C36.or.hidden_list_always_present");
   let h = h.unwrap();
@@ -120,26 +193,131 @@ pub fn c36_or_first_source_wins() {
     _ => 1,
   };
   assert!(h.len() == want, "C36.or.hidden_is_exactly_the_union");
-  std::mem::forget((a0, b0, r));
+  std::mem::forget(r);
 }
 
 /// three sources chained as merge does: flags.or(env).or(config) - a setting comes from the flags if
-/// set there, else from the environment, else from the config file (checked on one representative
-/// setting of each kind; c36_or_first_source_wins covers every field of a single `or`).
+/// set there, else from the environment, else from the config file
 //# props: C36
 //# kind: complete (every presence pattern of one path, one number, one string and one switch across three sources)
 //# fns: settings::Settings::or
+//# assume: HashSet behaves as a finite set (shim)
 //# timeout: 900
 #[cfg_attr(kani, kani::proof)]
-#[cfg_attr(kani, kani::unwind(6))]
+#[cfg_attr(kani, kani::unwind(12))]
 pub fn c36_or_chain_precedence() {
-  let mk = |tag: u8| Settings { data_dir: path(tag), http_port: num(tag), server_url: text(tag), index_sats: kani::any(), ..Default::default() };
-  let (f, e, c) = (mk(0), mk(1), mk(2));
-  let (f0, e0, c0) = (f.clone(), e.clone(), c.clone());
-  let r = f.or(e).or(c);
-  assert!(r.data_dir == f0.data_dir.clone().or(e0.data_dir.clone()).or(c0.data_dir.clone()), "C36.chain.path_flag_then_env_then_config");
-  assert!(r.http_port == f0.http_port.or(e0.http_port).or(c0.http_port), "C36.chain.number_flag_then_env_then_config");
-  assert!(r.server_url == f0.server_url.clone().or(e0.server_url.clone()).or(c0.server_url.clone()), "C36.chain.string_flag_then_env_then_config");
-  assert!(r.index_sats == (f0.index_sats || e0.index_sats || c0.index_sats), "C36.chain.switch_on_if_any");
-  std::mem::forget((f0, e0, c0, r));
+  let p: [[bool; 3]; 3] = kani::any();
+  let sw: [bool; 3] = kani::any();
+  let mk = |i: usize| {
+    let mut s = Settings::default();
+    if p[i][0] {
+      s.data_dir = Some(mk_path(i + 1));
+    }
+    if p[i][1] {
+      s.http_port = Some((i + 1) as u16);
+    }
+    if p[i][2] {
+      s.server_url = Some(mk_text(i + 1));
+    }
+    s.index_sats = sw[i];
+    s
+  };
+  let r = mk(0).or(mk(1)).or(mk(2));
+  let first = |k: usize| if p[0][k] { Some(1) } else if p[1][k] { Some(2) } else if p[2][k] { Some(3) } else { None };
+  assert!(r.data_dir.as_ref().map(key_path) == first(0), "C36.chain.path_flag_then_env_then_config");
+  assert!(r.http_port.map(|x| x as usize) == first(1), "C36.chain.number_flag_then_env_then_config");
+  assert!(r.server_url.as_ref().map(key_text) == first(2), "C36.chain.string_flag_then_env_then_config");
+  assert!(r.index_sats == (sw[0] || sw[1] || sw[2]), "C36.chain.switch_on_if_any");
+  std::mem::forget(r);
+}
+
+/// from_options(flags): every setting that has a command-line flag is exactly what the flag says -
+/// in particular a flag whose value equals the default is still "set" (it must be able to override
+/// the environment and the config file) - and the chain is the first of --signet, --regtest,
+/// --testnet, --testnet4, --chain that is given.  (Strengthened after sub-agent seed C36-2.)
+//# props: C36
+//# kind: complete (every combination of the five chain flags, every value of --chain; every presence pattern of the numeric flags and switches)
+//# fns: settings::Settings::from_options
+//# timeout: 900
+#[cfg_attr(kani, kani::proof)]
+#[cfg_attr(kani, kani::unwind(12))]
+pub fn c36_from_options_chain_numbers_switches() {
+  let mut o = Options::default();
+  let arg: Option<u8> = kani::any();
+  o.chain_argument = match arg {
+    Some(k) => Some(match k % 5 {
+      0 => Chain::Mainnet,
+      1 => Chain::Regtest,
+      2 => Chain::Signet,
+      3 => Chain::Testnet,
+      _ => Chain::Testnet4,
+    }),
+    None => None,
+  };
+  o.signet = kani::any();
+  o.regtest = kani::any();
+  o.testnet = kani::any();
+  o.testnet4 = kani::any();
+  o.bitcoin_rpc_limit = kani::any();
+  o.height_limit = kani::any();
+  o.commit_interval = kani::any();
+  o.index_cache_size = kani::any();
+  o.max_savepoints = kani::any();
+  o.savepoint_interval = kani::any();
+  let sw: [bool; 6] = kani::any();
+  o.index_addresses = sw[0];
+  o.index_runes = sw[1];
+  o.index_sats = sw[2];
+  o.index_transactions = sw[3];
+  o.integration_test = sw[4];
+  o.no_index_inscriptions = sw[5];
+  let (signet, regtest, testnet, testnet4, chain_argument) = (o.signet, o.regtest, o.testnet, o.testnet4, o.chain_argument);
+  let nums = (o.bitcoin_rpc_limit, o.height_limit, o.commit_interval, o.index_cache_size, o.max_savepoints, o.savepoint_interval);
+  let s = Settings::from_options(o);
+  let want = if signet {
+    Some(Chain::Signet)
+  } else if regtest {
+    Some(Chain::Regtest)
+  } else if testnet {
+    Some(Chain::Testnet)
+  } else if testnet4 {
+    Some(Chain::Testnet4)
+  } else {
+    chain_argument
+  };
+  assert!(s.chain == want, "C36.from_options.chain_is_the_first_chain_flag_given_even_if_it_is_the_default");
+  assert!((s.bitcoin_rpc_limit, s.height_limit, s.commit_interval, s.index_cache_size, s.max_savepoints, s.savepoint_interval) == nums, "C36.from_options.numeric_flags_kept");
+  assert!(s.index_addresses == sw[0] && s.index_runes == sw[1] && s.index_sats == sw[2] && s.index_transactions == sw[3] && s.integration_test == sw[4] && s.no_index_inscriptions == sw[5], "C36.from_options.switches_kept");
+  assert!(s.hidden.is_none() && s.http_port.is_none() && s.server_url.is_none(), "C36.from_options.settings_without_a_flag_stay_unset");
+  std::mem::forget(s);
+}
+
+/// from_options(flags), path- and string-valued flags
+//# props: C36
+//# kind: complete (every presence pattern of the 6 path flags and 4 string flags)
+//# fns: settings::Settings::from_options
+//# timeout: 900
+#[cfg_attr(kani, kani::proof)]
+#[cfg_attr(kani, kani::unwind(12))]
+pub fn c36_from_options_paths_strings() {
+  let mut o = Options::default();
+  let pp: [bool; 6] = kani::any();
+  let ps: [bool; 4] = kani::any();
+  if pp[0] { o.bitcoin_data_dir = Some(mk_path(1)); }
+  if pp[1] { o.config = Some(mk_path(1)); }
+  if pp[2] { o.config_dir = Some(mk_path(1)); }
+  if pp[3] { o.cookie_file = Some(mk_path(1)); }
+  if pp[4] { o.data_dir = Some(mk_path(1)); }
+  if pp[5] { o.index = Some(mk_path(1)); }
+  if ps[0] { o.bitcoin_rpc_password = Some(mk_text(1)); }
+  if ps[1] { o.bitcoin_rpc_url = Some(mk_text(1)); }
+  if ps[2] { o.bitcoin_rpc_username = Some(mk_text(1)); }
+  if ps[3] { o.server_password = Some(mk_text(1)); }
+  let s = Settings::from_options(o);
+  assert!(s.bitcoin_data_dir.is_some() == pp[0] && s.config.is_some() == pp[1] && s.config_dir.is_some() == pp[2]
+    && s.cookie_file.is_some() == pp[3] && s.data_dir.is_some() == pp[4] && s.index.is_some() == pp[5], "C36.from_options.path_flags_kept");
+  assert!(s.bitcoin_rpc_password.is_some() == ps[0] && s.bitcoin_rpc_url.is_some() == ps[1] && s.bitcoin_rpc_username.is_some() == ps[2]
+    && s.server_password.is_some() == ps[3], "C36.from_options.string_flags_kept");
+  assert!(s.server_username.is_none() && s.chain.is_none(), "C36.from_options.unset_flags_stay_unset");
+  std::mem::forget(s);
 }
